@@ -148,6 +148,18 @@ prop('C10',
   "Not decided: totality over all byte strings (only the listed loops and frames are analysed); contents of error replies beyond type/code; OS-level socket errors in the accept loop.",
   "custom AST/CFG checker: loop-progress prover over enumerated paths with constant propagation and constant-argument callee summaries, exception-containment frames, guard dominance", "DESIGN.md 5/C10")
 
+prop('C11',
+  "Static analysis of /repo's current source (partial property): decides structural necessary conditions of the learning-switch loop - "
+  "every path of _handle_PacketIn (closures flood/drop summarised by must-pass analysis) sends a message that carries the packet-in or "
+  "its buffer id, or lies on the no-buffer branch (buffers never leak); the learning store dominates every decision; the install+forward "
+  "send is dominated by port != ingress port and by 'destination learned'; for LLDP / bridge-filtered frames in non-transparent mode "
+  "only drop() is reachable; multicast and unknown destinations reach flood and not install; flood sets in_port and OFPP_FLOOD; the "
+  "installed match is from_packet(packet, ingress port) with output to the learned port and non-zero timeouts; on the switch side a "
+  "flow-mod / packet-out naming a buffer always reaches the use-and-free routine; flow_mod.pack's data magic and packet_out.data take "
+  "buffer id and in_port from the packet-in. Decides these conditions, not equivalence with an ideal learning bridge.",
+  "Not decided: bridge equivalence over frame histories, interaction with cached flows/timeouts, delivery through the real encoding end to end.",
+  "custom AST/CFG checker: must-pass-through with closure summaries, guard dominance, path-sensitive reachability under constant environments, argument agreement", "DESIGN.md 5/C11")
+
 NOT_APPLICABLE = {
   'C16': "Address types: the statement is about numeric/textual agreement over the whole address domain (byte order, mask arithmetic, CIDR parsing, zero-run compression, round trips, rejection of malformed text) - results of computations on runtime values; no shape-level rule is a necessary and telling condition for it (DESIGN.md section 7).",
 }
